@@ -48,7 +48,7 @@ for patch in "$@"; do
     verdict=caught
     file="${vline##*replay=}"
     (cd "$SCR/verif" && ./check.sh replay "$file") >"$SCR/replay.log" 2>&1
-    if [ $? -eq 1 ] && grep -q 'reproduces the recorded violation exactly (class, step, digest): yes' "$SCR/replay.log"; then rp=yes; else rp=NO; fail=1; fi
+    if [ $? -eq 1 ] && grep -q 'reproduces the recorded violation exactly (class.*): yes' "$SCR/replay.log"; then rp=yes; else rp=NO; fail=1; fi
   elif [ $rc -eq 2 ]; then
     verdict=HARNESS; class="$(grep -m1 HARNESS-ERROR "$SCR/check.log" | cut -c1-150)"; fail=1
   elif [ $rc -eq 0 ]; then
